@@ -12,9 +12,9 @@ use crate::error::Error;
 # changes which size lines the decoder accepts, not whether what it accepts is decoded exactly.
 import re as _re
 _m = _re.search(r'const\s+SANITY_CHECK\s*:\s*usize\s*=\s*(\d+)\s*;', open(REPO + '/src/chunk.rs', encoding='utf-8').read())
-if not _m:
-    raise LostAnchor('chunk::Dechunker::read_size: const SANITY_CHECK not found')
-SANITY = int(_m.group(1))
+# (not found: read_size was restructured; it is then kept under contract only, with whatever limit the spec last knew)
+SANITY_LOST = None if _m else 'const SANITY_CHECK: usize = <n>; not found in src/chunk.rs (the size-line limit is part of the specification)'
+SANITY = int(_m.group(1)) if _m else 20
 RAW("""
 /// the value of `const SANITY_CHECK` in read_size (taken from the source on every run)
 pub open spec fn sanity_limit() -> int { %d }
@@ -274,7 +274,7 @@ FN('is_ended', props=['C07', 'C08'], ret='r', ensures=[('aux.Dechunker.is_ended'
 
 HANDLER_FRAME = 'final(pos).index_in <= src.len() && final(pos).index_in >= old(pos).index_in'
 
-FN('read_size', props=['C07', 'C12', 'C01'], ret='r',
+FN('read_size', props=['C07', 'C12', 'C01'], ret='r', lost=SANITY_LOST,
    requires=[('aux.read_size.pre', 'old(pos).index_in <= src.len() && *old(self) is Size')],
    ensures=[
        ('aux.read_size.frame', 'final(pos).index_out == old(pos).index_out && ' + HANDLER_FRAME + ' && (r is Err ==> *final(self) == *old(self))'),
